@@ -202,6 +202,20 @@ theorem namedAnchor_of_parse {q : Q} {s : SrcAnchor} {p : Parsed} (hne : s.name 
     namedAnchor q s = .ok (some ⟨s.name, quantize q s.x, quantize q s.y, p.isMark, String.ofList p.key, p.number, none⟩) := by
   simp [namedAnchor, hne, hp, hc, hi]
 
+theorem namedAnchor_of_parse_gen {q : Q} {s : SrcAnchor} {p : Parsed} (hne : s.name ≠ "")
+    (hp : parseAnchor s.name.toList = .ok p) (hc : p.ctx = true → s.lib.isSome = true) (hi : keyIgnorable p.key = false) :
+    namedAnchor q s = .ok (some ⟨s.name, quantize q s.x, quantize q s.y, p.isMark, String.ofList p.key, p.number,
+      if p.ctx then s.lib else none⟩) := by
+  have hcond : (p.ctx && s.lib.isNone || keyIgnorable p.key) = false := by
+    cases hpc : p.ctx with
+    | false => simp [hi]
+    | true =>
+      have := hc hpc
+      cases hl : s.lib with
+      | none => rw [hl] at this; simp at this
+      | some _ => simp [hi]
+  simp only [namedAnchor, hne, if_false, hp, hcond, Bool.false_eq_true]
+
 /-! ### one glyph -/
 theorem glyphAnchors_ok {q : Q} {srcs : List SrcAnchor} {as : List NA} (h : glyphAnchors q srcs = .ok as) :
     (∀ a ∈ as, ∃ s ∈ srcs, namedAnchor q s = .ok (some a)) ∧
